@@ -2,7 +2,7 @@
 From Coq Require Import List NArith ZArith Bool.
 From GoPdf.Base Require Import Bytes Res.
 From GoPdf.Gen Require Import Gen_C06 Gen_C06ccitt2d.
-From GoPdf.C06 Require Import Machine MachineProofs AHx A85 RunLen LZW Predict Chain FilterParams Conform CCITT CCITTTables CCITTProofs CCITT2D CCITTParams CCITT2DProofs
+From GoPdf.C06 Require Import Machine MachineProofs AHx A85 RunLen LZW Predict Chain FilterParams Conform CCITT CCITTTables CCITTProofs CCITT2D CCITTParams CCITT2DProofs CCITT2DRowProofs CCITT2DImgProofs
   AHxProofs A85Proofs RunLenProofs LZWCodeProofs LZWBitProofs PredictProofs ChainProofs FilterParamsProofs.
 Import ListNotations.
 
@@ -206,34 +206,50 @@ Theorem ccitt_mode_table : mode_table_ok = true.
 Proof. exact mode_table_check. Qed.
 Print Assumptions ccitt_mode_table.
 
-(* a row in two-dimensional coding, given its reference row: the decoder, fed the mode codes the encoder writes
-   (pass / vertical / horizontal with its two runs), stays in step with the encoder - same a0 and colour after
-   every code, no forward-progress error, exactly the row's bits consumed (anything may follow) - and arrives at the
-   encoder's final position.  [refc]/[linec] are the changing elements of the reference row and of the coding row. *)
-Theorem g4_row_sync_partial : forall p ref row fuelE a0 cur pa pc line r rb tail,
-  let cols := Z.of_N (g_cols p) in
-  let refc := changing p (row_px p ref) in
-  let linec := changing p (row_px p row) in
-  (-1 <= a0)%Z -> (a0 <> pa \/ cur <> pc) -> good r rb ->
-  real r rb = enc2d fuelE p refc linec cols a0 cur ++ tail ->
-  exists r' rb' line' pa' pc', good r' rb' /\ real r' rb' = tail /\
-    (fst (enc2d_end fuelE p refc linec cols a0 cur) <> pa' \/ snd (enc2d_end fuelE p refc linec cols a0 cur) <> pc') /\
-    forall f, dec2d (fuelE + f) p refc cols a0 cur pa pc line r =
-      dec2d f p refc cols (fst (enc2d_end fuelE p refc linec cols a0 cur)) (snd (enc2d_end fuelE p refc linec cols a0 cur))
-            pa' pc' line' r'.
-Proof.
-  exact (fun p ref row => g4_row_sync p _ _ (-1)%Z (-1)%Z
-           (proj1 (changing_ok p ref)) (proj2 (changing_ok p ref)) (proj1 (changing_ok p row)) (proj2 (changing_ok p row))).
-Qed.
-Print Assumptions g4_row_sync_partial.
+(* a row in two-dimensional coding, given ANY reference row: the decoder loop (Reader.decode2D), fed the mode codes
+   the encoder writes for the row (pass / vertical / horizontal with its two runs), paints exactly the row's pixels
+   (whole bytes, zero padding bits), raises no forward-progress error and stops right behind the row's code,
+   whatever follows *)
+Theorem g4_row_rt : forall p ref row r rb tail,
+  (0 < g_cols p)%N -> row_ok p row -> good r rb -> real r rb = row2d_bits p ref row ++ tail ->
+  exists r' rb', good r' rb' /\ real r' rb' = tail /\
+    dec2d (S (S (bits_left r))) p (changing p (row_px p ref)) (Z.of_N (g_cols p)) (-1)%Z (white_bit p) (-2)%Z
+          (negb (white_bit p)) [] r = (flat_map bits8 row, r').
+Proof. exact g4_row_dec. Qed.
+Print Assumptions g4_row_rt.
 
-(* whole images in two-dimensional coding: the statement at full strength.  Proved: the run decoder of the
-   horizontal mode (g4_full_run_rt, full_run_complete_iff, full_run_bound), the mode table (ccitt_mode_table) and
-   g4_row_sync_partial.  Missing for g4_rt_all: that the pixels painted along the way are the row's (needs the
-   colour-parity reading of changing elements), that the encoder's fuel reaches the end of the row, EOFB / byte
-   alignment / reference-row bookkeeping over the rows.  The executable model CCITT2D.v is tied to the Go code by
-   cross round trip and damaged code streams. *)
-Definition g4_rt_all : Prop := forall p rows,
+(* the code of a row (after up to 7 fill bits) never reads as the end-of-facsimile-block code the reader looks
+   for after every row *)
+Theorem g4_eofb_not_mimicked : forall p ref row q X, (0 < g_cols p)%N -> (q < 8)%nat ->
+  firstn 24 (repeat false q ++ row2d_bits p ref row ++ X) <> eofb_bits.
+Proof. exact no_mimic. Qed.
+Print Assumptions g4_eofb_not_mimicked.
+
+(* Group 4 (K < 0), whole images: rows of ceil(Columns/8) bytes with zero padding bits, any EncodedByteAlign,
+   BlackIs1, EndOfBlock setting, within the row limit *)
+Theorem g4_rt : forall p rows,
   (0 < g_cols p)%N -> Forall (row_ok p) rows ->
   (g_maxrows p = 0%nat \/ (length rows <= g_maxrows p)%nat) ->
   g4_dec p (g4_enc p (concat rows)) = Ok (concat rows).
+Proof. exact g4_rt_proof. Qed.
+Print Assumptions g4_rt.
+
+(* ... and with the row limit of FilterCCITTFax.toParams: what the K < 0 encoder accepts is decoded exactly, and it
+   accepts at most ccitt_max_rows rows *)
+Theorem ccitt_rows_rt_g4 : forall c rows e,
+  validate_ccitt c = true -> (0 <= c_columns c)%Z -> Forall (row_ok (g3p_of c)) rows ->
+  g4_encode (g3p_of c) rows = Ok e ->
+  g4_dec (g3p_of c) e = Ok (concat rows) /\ (length rows <= Z.to_nat (ccitt_max_rows (c_columns c) (c_rows c)))%nat.
+Proof. exact ccitt_filter_rt4. Qed.
+Print Assumptions ccitt_rows_rt_g4.
+
+(* the row limit is the expression in the Go source (translated, Gen_C06ccitt2d.v) over the translated limits *)
+Theorem ccitt_row_limit_source : forall cols,
+  ccitt_geo_max_rows cols = Z.max 1 (Z.min Gen_C06ccitt.MaxImageHeight (Z.quot Gen_C06ccitt.MaxImagePixels (Z.max cols 1))).
+Proof. exact ccitt_geo_max_rows_limits. Qed.
+Print Assumptions ccitt_row_limit_source.
+
+Example g4_hyp :
+  row_ok {| g_cols := 13; g_eol := false; g_align := false; g_blackis1 := true; g_ignore_eob := false; g_maxrows := 4 |}
+         [170; 80]%N.
+Proof. repeat split; repeat constructor. Qed.
